@@ -78,9 +78,8 @@ package nsqd
 // answer is consumed here.
 //@ func (n *NSQD) resizePool(num int, workCh chan *Channel, responseCh chan bool, closeCh chan int)
 //@   props C01 C04
-//   CONFIGURATION ASSUMPTION: --queue-scan-worker-pool-max >= 1 (default 4). With 0 (or a negative value) the `else if` branch sets
-//   the ideal size to that value: every worker is stopped and the scan loop blocks for ever (notes, observation O1).
-//@   requires[config-pool-max] curOpts(n).QueueScanWorkerPoolMax >= 1
+//   No configuration assumption: the pool never drops below one worker whatever --queue-scan-worker-pool-max says (before the fix a value
+//   of 0 or less stopped every worker and the scan loop blocked for ever: finding recorded in /verif/known_findings.txt).
 //@   requires n != nil
 //@   ensures[pool-in-range] 1 <= n.poolSize && n.poolSize <= max(1, curOpts(n).QueueScanWorkerPoolMax)
 //@   ensures[one-stop-signal-per-worker-removed] sent(closeCh) - old(sent(closeCh)) == max(0, old(n.poolSize) - n.poolSize)
@@ -129,11 +128,11 @@ package nsqd
 //@ func (n *NSQD) queueScanLoop()
 //@   props C01 C04
 //@   requires n != nil
-//@   requires[config] curOpts(n).QueueScanSelectionCount >= 1 && curOpts(n).QueueScanWorkerPoolMax >= 1
+//@   requires[config] curOpts(n).QueueScanSelectionCount >= 1
 //@   modifies n.topicMap, mapstore(map[string]*Topic), Topic.channelMap, mapstore(map[string]*Channel), r4AChannelsCalls, r4ALastChannels,
 //@        n.poolSize, chanstore(int), r4AResizeCalls, r4AResizeNum, r4AResizeNSQD, chanstore(*Channel), chanstore(bool), chanstore(time.Time)
 //@   loop 0
-//@     invariant[config] curOpts(n).QueueScanSelectionCount >= 1 && curOpts(n).QueueScanWorkerPoolMax >= 1
+//@     invariant[config] curOpts(n).QueueScanSelectionCount >= 1
 //@     invariant[tickers] workTicker != nil && refreshTicker != nil
 //@     invariant[cached-usable] r4AListUsable(channels, len(channels))
 //@     invariant[cache-is-latest-snapshot] r4AChannelsCalls > old(r4AChannelsCalls) && channels == r4ALastChannels
